@@ -111,10 +111,11 @@ def run(ctx, monitors):
     if c11:
         mc.append(("MC_SyncServe.cfg" if not q else "MC_SyncServe_quick.cfg", True))
         if not q:
-            mc += [("MC_SyncServe_mem.cfg", True), ("MC_SyncServe_same.cfg", True)]
+            # memdb: round-based live cursor over the ring buffer; its scan skips no stored round
+            mc += [("MC_SyncServe_mem.cfg", True), ("MC_SyncServe_same.cfg", True), ("MC_SyncServe_memevict.cfg", True)]
         mc += [("MC_SyncServe_%s.cfg" % m, False) for m in ("NoGap", "NoRepeat", "LiveComplete")]
         if not q:
-            mc += [(c, False) for c in ("MC_SyncServe_sameLive.cfg", "MC_SyncServe_w2.cfg", "MC_SyncServe_memevict.cfg")]
+            mc += [(c, False) for c in ("MC_SyncServe_sameLive.cfg", "MC_SyncServe_w2.cfg", "MC_SyncServe_memseek.cfg")]
     if c12:
         if not q:
             mc.append(("MC_SyncServe_stall.cfg", True))
@@ -134,6 +135,8 @@ def run(ctx, monitors):
             gen.append(lambda: _simulate(ctx, "Sim_SyncServe_two.cfg", "two-boltu", 100, 200, impl="boltu"))
         else:
             gen.append(lambda: _enumerate(ctx, "Sim_SyncServe_w2.cfg", "w2-bolt", limit=60))
+            # memdb sample: scans over a full ring buffer (every Put evicts the oldest round)
+            gen.append(lambda: _enumerate(ctx, "Sim_SyncServe_memevict_quick.cfg", "evict-mem", limit=40))
         n = 40 if q else 400
         gen.append(lambda: _simulate(ctx, "Sim_SyncServe_two.cfg", "two-bolt", n, 200))
         gen.append(lambda: _simulate(ctx, "Sim_SyncServe_same.cfg", "same-bolt", 150 if q else 600, 200))
